@@ -359,7 +359,7 @@ def r4(ctx, rule='C10.R4', only_status=False):
                 def decide(c, vals):
                     if match(status, c) is not None or is_status(c):
                         return f.enum_discr('board::BoardStatus', st_)
-                    if c[0] == 'call' and 'PartialEq' in c[1] and (c[1].endswith('::eq') or c[1].endswith('::ne')) and len(c[2]) == 2 and 'Color' in str(c[3]):
+                    if c[0] == 'call' and 'PartialEq' in c[1] and (c[1].endswith('::eq') or c[1].endswith('::ne')) and len(c[2]) == 2:
                         for x_, y_ in ((c[2][0], c[2][1]), (c[2][1], c[2][0])):
                             if side_of(x_) and y_[0] == 'enum' and match(STM, x_) is None:
                                 return as_bool((stm == y_[2]) == c[1].endswith('::eq'), vals)
